@@ -229,6 +229,7 @@ func (ti *TypeInfo) StrLit(v string) *Term {
 		name = fmt.Sprintf("strlit_%s_%x", sanitize(truncate(v, 16)), fnv(v))
 	}
 	ti.u.Declare(name, SStr)
+	ti.u.strLits[name] = v
 	if ti.litText == nil {
 		ti.litText = map[string]string{}
 	}
